@@ -150,3 +150,31 @@ package graph
 //@     invariant done: forall k string :: k in visited ==> k in other.Deleted && k in s.Deleted && !(k in s.Map) && !(k in s.Modified)
 //@     invariant restMap: forall k string :: !(k in visited) ==> (k in s.Map) == (old(k in s.Map) || (k in other.Map && !(old(k in s.Deleted) && !(k in other.Modified)))) && (k in s.Map && k in other.Map ==> s.Map[k] == other.Map[k]) && (k in s.Map && !(k in other.Map) ==> s.Map[k] == old(s.Map[k]))
 //@     invariant restFlags: forall k string :: !(k in visited) ==> (k in s.Modified) == (old(k in s.Modified) || k in other.Modified) && (k in s.Deleted) == (old(k in s.Deleted) && !(k in other.Modified))
+
+// ---- Kinds: membership test and ownership of Add's result -------------------------------------------------
+//
+// Node.AddKinds / DeleteKinds / Merge are covered by the exhaustive bounded harness /verif/bounded/c12_kinds_test.go
+// (a proof of the node-level invariant over slice-backed sets was tried and its obligations were too slow to be
+// claimed). What is proved here: ContainsOneOf with one kind is exact membership, and Add never returns the argument's
+// array - the result is the receiver's array or a new one - and keeps the receiver's elements in place.
+// Assumed: kinds are the canonical values returned by StringKind, so == and Kind.Is agree.
+
+//@ iface func (k Kind) Is(other ...Kind) bool
+//@   ensures len(other) == 1 ==> result == (other[0] == k)
+
+//@ func (s Kinds) ContainsOneOf(others ...Kind) bool
+//@   nomod
+//@   ensures single: len(others) == 1 && others[0] != nil ==> result == (others[0] in set(s))
+//@   loop 0
+//@     invariant range: -1 <= rangeindex
+//@     invariant notYet: len(others) == 1 && others[0] != nil ==> (forall i int :: 0 <= i && i <= rangeindex ==> s[i] != others[0])
+
+//@ func (s Kinds) Add(kinds ...Kind) Kinds
+//@   requires kinds.arr != s.arr || s.arr == 0
+//@   ensures own: result.arr == s.arr || fresh(result.arr)
+//@   ensures old: len(result) >= len(s) && (forall i int :: 0 <= i && i < len(s) ==> result[i] == s[i])
+//@   loop 0
+//@     invariant range: -1 <= rangeindex
+//@     invariant own: ref.arr == s.arr || fresh(ref.arr)
+//@     invariant inPlace: ref.arr == s.arr ==> ref.off == s.off
+//@     invariant prefix: len(ref) >= len(s) && (forall i int :: 0 <= i && i < len(s) ==> ref[i] == s[i])
